@@ -453,6 +453,11 @@ func (p *Pool) Put(x any) {
 	p.mu.Lock()
 	p.items = append(p.items, x)
 	p.mu.Unlock()
+	// what the caller still does after releasing the object (deferred handlers, a result built from
+	// it) is a segment of its own: another thread may be handed the object before it
+	if Hooks.Point != nil {
+		Hooks.Point("put-done", p)
+	}
 }
 
 // Items returns the pooled objects (oldest first) for state inspection.
